@@ -192,13 +192,21 @@ pub fn h_roundtrip_api() {
         r
     });
     d.set_rcsid(&rcs);
+    let fpk = sym::choose("filepath", 3);
     for f in files.iter() {
         let mut sums: Vec<Checksum> = Vec::new();
         for (a, h) in f.sums.iter() {
             sums.push(Checksum::new(alg_of(*a), String::from_utf8(h.clone()).unwrap()));
         }
         let name = PathBuf::from(OsString::from_vec(f.name.clone()));
-        let e = Entry::new(&name, &name, sums, f.size.as_ref().map(|x| x.0));
+        // the on-disk path is documented as not used in the distinfo file: it may be the name itself, absent,
+        // or a path whose basename would classify differently from the distinfo name
+        let path = match fpk {
+            0 => name.clone(),
+            1 => PathBuf::new(),
+            _ => PathBuf::from(if f.patch { "/w/distfiles/d.tar" } else { "/w/patches/patch-zz" }),
+        };
+        let e = Entry::new(&name, &path, sums, f.size.as_ref().map(|x| x.0));
         sym::check("C10/insert-new", d.insert(e));
     }
     let back = Distinfo::from_bytes(&d.as_bytes());
